@@ -406,7 +406,7 @@ Definition bedgraph_to_bigwig (fparse : list N -> option N) (cs_text in_text : l
   do items <- mapM (parse_bedgraph fparse) (lines in_text);
   accept check_chrom sizes items.
 (* without --autosql the schema is generated from the first line, read before the conversion starts; a first line
-   that does not parse is returned as an error there (repaired in /repo 46fc13d: it was `.unwrap()`, a panic) *)
+   that does not parse is returned as an error there (repaired in /repo c6ef97a: it was `.unwrap()`, a panic) *)
 Definition bed_to_bigbed (has_autosql : bool) (cs_text in_text : list N) : res (list (wchrom bed_entry)) :=
   do sizes <- parse_chrom_sizes cs_text;
   do _ <- (if has_autosql then Ok tt
